@@ -134,6 +134,9 @@ class SFTPHandle(ClosingContextManager):
                 if offset != self.__tell:
                     writefile.seek(offset)
                     self.__tell = offset
+            else:
+                # the write lands at EOF and leaves the file position there
+                self.__tell = None
             writefile.write(data)
             writefile.flush()
         except IOError as e:
